@@ -140,7 +140,7 @@ def instance(row, k, seg, env):
         if v is None and not m:
             truth = False
         if not truth:
-            falses.append(gid)
+            falses.append(gid + ("!" if m else ""))
     j = lambda xs: ",".join(xs) if xs else "-"
     return "%s@%d@%s@%s@%s" % (row, k, j(objs), j(absent), j(falses))
 
